@@ -58,12 +58,12 @@ fn main() {
         check_assoc_triple::<B>(f, &p, &g2, loc);
     }).heavy());
     // lax associativity across boundaries of three with repeats on both sides: every composable triple of edge-free
-    // diagrams on <=2 nodes (f: 0 -> 3, p: 3 -> 3, g: 3 -> 0 wires)
+    // diagrams on <=2 nodes (<=3 for the middle one; f: 0 -> 3, p: 3 -> 3, g: 3 -> 0 wires)
     let legs3 = |n: usize| -> Vec<Vec<usize>> { ohmc_core::uni::tables(3, n) };
     let mut tri: Vec<(PLax<u8, u8>, PLax<u8, u8>, PLax<u8, u8>)> = vec![];
     for nf in 1..=2usize {
         for ft in legs3(nf) {
-            for np in 1..=2usize {
+            for np in 1..=3usize {
                 for ps in legs3(np) {
                     for pt in legs3(np) {
                         for ng in 1..=2usize {
@@ -77,7 +77,7 @@ fn main() {
             }
         }
     }
-    ctx.run_slice(Slice::new(format!("lax-assoc-boundaries-of-three[{} triples of edge-free diagrams on <=2 nodes]", tri.len()), tri.len() as u64, |i, loc| check_lax_laws(&tri[i as usize].0, &tri[i as usize].1, &tri[i as usize].2, loc)));
+    ctx.run_slice(Slice::new(format!("lax-assoc-boundaries-of-three[{} triples of edge-free diagrams on <=2 (middle: <=3) nodes]", tri.len()), tri.len() as u64, |i, loc| check_lax_laws(&tri[i as usize].0, &tri[i as usize].1, &tri[i as usize].2, loc)));
     // the laws on large operands (sizes 33 .. 129): identities, naturality of the symmetry on all pairs, and
     // associativity on all composable triples of one numbering per shape
     let sizes: Vec<usize> = if quick { vec![33, 65] } else { vec![33, 64, 65, 129] };
